@@ -23,29 +23,29 @@ def plan(pid, tier, seed):
     if quick:
         mc = [
             _mc("Stats_MC_members_quick.cfg", 400),     # class bodies of <= 2 members (4 161 inputs)
-            _mc("Stats_MC_quick.cfg", 900) ,            # one method, 821 modifier lists x 13 return sequences (10 674)
+            _mc("Stats_MC_quick.cfg", 900),             # one method, 821 modifier lists x 13 return sequences (10 674)
             _mc("Stats_MC_count_quick.cfg", 400),       # 9 261 call models
             _mc("Stats_MC_concept_quick.cfg", 300),     # 2 652 name lists
         ]
     else:
         mc = [
             _mc("Stats_MC_members_quick.cfg", None),               # all 4 161 class bodies replayed
-            _mc("Stats_MC_quick.cfg", 5000),
-            _mc("Stats_MC_count_quick.cfg", 4000),
+            _mc("Stats_MC_quick.cfg", 4000),
+            _mc("Stats_MC_count_quick.cfg", 3000),
             _mc("Stats_MC_concept_quick.cfg", None),               # all 2 652 name lists replayed
-            _mc("Stats_MC_thorough.cfg", 12000, 3600, True),       # 2.47 M states, 234 441 inputs
-            _mc("Stats_MC_members_thorough.cfg", 8000, 3600),      # 2.32 M states, 200 257 inputs
-            _mc("Stats_MC_members3.cfg", 4000, 3600),              # 121 270 states, 9 724 inputs
-            _mc("Stats_MC_count_thorough.cfg", 6000, 3600, True),  # 2.69 M states, 185 193 models
-            _mc("Stats_MC_count_overload.cfg", 3000, 3600),        # 3.47 M states, 194 481 models
-            _mc("Stats_MC_concept_thorough.cfg", 4000, 3600, True),  # 501 381 states, 29 412 name lists
+            _mc("Stats_MC_thorough.cfg", 9000, 3600, True),        # 2.47 M states, 234 441 inputs
+            _mc("Stats_MC_members_thorough.cfg", 6000, 3600),      # 2.32 M states, 200 257 inputs
+            _mc("Stats_MC_members3.cfg", 3000, 3600),              # 121 270 states, 9 724 inputs
+            _mc("Stats_MC_count_thorough.cfg", 4500, 3600, True),  # 2.69 M states, 185 193 models
+            _mc("Stats_MC_count_overload.cfg", 2000, 3600),        # 28 561 models with two overloads sharing a key
+            _mc("Stats_MC_concept_thorough.cfg", 3000, 3600, True),  # 501 381 states, 29 412 name lists
         ]
     return {
         "harness": "stats",
         "needs_coca": True,
         "mc": mc,
         "gen": [],
-        "rand": 500 if quick else 6000,
+        "rand": 500 if quick else 5000,
         "trace": TRACE,
         "run_timeout": 6000,
     }
